@@ -85,9 +85,14 @@ func checkC07(c *Ctx) {
 		switch t {
 		case "shortKEM":
 			c.callArgRule(p, "C07.labels", "bytes = LabeledExpand(dkp_prk, \"candidate\", I2OSP(counter,1), Nsk)", f, kemLX, `"candidate"`,
-				map[int]string{1: dkp, 3: `\[lo8\(phi\(.*\)\)\]`, 4: `.*[sS]ize.*`})
+				map[int]string{1: dkp, 3: `\[lo8\(phi\(.*\)\)\]`, 4: `.*PrivateKeySize.*|.*byteSize.*|.*[sS]ize.*`})
 		default:
-			c.callArgRule(p, "C07.labels", "sk = LabeledExpand(dkp_prk, \"sk\", \"\", Nsk)", f, kemLX, `"sk"`, map[int]string{1: dkp, 3: none, 4: `.*Size.*`})
+			// Nsk, the size of a private key (the embedded crypto.Hash promotes a Size() of its own: Nh)
+			nsk := `.*PrivateKeySize.*`
+			if t == "hybridKEM" {
+				nsk = `.*SeedSize.*`
+			}
+			c.callArgRule(p, "C07.labels", "sk = LabeledExpand(dkp_prk, \"sk\", \"\", Nsk)", f, kemLX, `"sk"`, map[int]string{1: dkp, 3: none, 4: nsk})
 		}
 	}
 	// the labelled helpers: concatenation order and HKDF argument order
